@@ -35,10 +35,12 @@ Integral(t, p) == \/ t = "fint"
 
 \* representations in which payload p of type t can be written
 Reprs(t, p) ==
-    CASE t \in {"str"} -> {"str"}
-      [] t = "lcstr" -> {"str", "str upper"}
+    \* "bytes": the UTF-8 encoding of the text / of the numeric string (what
+    \* HDF5 attributes hand out)
+    CASE t \in {"str"} -> {"str", "bytes"}
+      [] t = "lcstr" -> {"str", "str upper", "bytes"}
       [] t \in {"float", "fint"} ->
-            {"native", "numpy scalar", "numeric string"}
+            {"native", "numpy scalar", "numeric string", "bytes"}
             \cup (IF Integral(t, p) THEN {"int", "float", "numpy int"} ELSE {})
             \cup (IF t = "fint" /\ p \in {"0", "1"} THEN {"bool", "bool string"} ELSE {})
       [] t = "fbool" -> {"native", "numpy bool", "int", "float", "bool string",
